@@ -58,6 +58,22 @@ CLAIMED = {
         "technique": "Coq proof (iff with the textbook verification equation, modular arithmetic, DER/BIP66) + checked correspondence",
         "design": "DESIGN.md section 8 / C02",
     },
+    "C10": {
+        "text": "Machine-checked proof (Coq 8.16.1), all at full strength for an arbitrary 32-byte hash and any duplicate-free 2048-word "
+                "list: entropy of 16/20/24/28/32 bytes gives 12/15/18/21/24 list words (other lengths ValueError) and equals the BIP39 "
+                "bit-string spec; to_entropy(mnemonic(e)) = e (also at the string level through join/split); a sentence of valid length is "
+                "accepted IFF all words are in the list and the checksum bits equal the leading bits of sha256(entropy); among sentences with "
+                "the same entropy bits exactly one is accepted; accepted sentences are exactly the images of calculate_mnemonic_phrase; "
+                "every other sentence raises (ValueError/AssertionError); the seed is the PBKDF2 call of the standard. The 2048-word list "
+                "is regenerated from the code on every run (length, NoDup, a-z proved by computation; SHA-256 digest of english.txt "
+                "checked). Correspondence: Trezor vectors, all lengths/patterns, 2048 last-word sweep (exactly 128 accepted), whitespace "
+                "and NFKD classes, independent Python reference with its own PBKDF2.",
+        "note": "sha256, pbkdf2 and NFKD are oracles (arbitrary functions in the theorems; hashlib/unicodedata at run time); the seed "
+                "clause is definitional in Coq and decided by the correspondence against an independent PBKDF2. Trusted: Coq kernel, "
+                "extraction, harness.",
+        "technique": "Coq proof (radix/bit-list algebra, checksummed bijection) + regenerated word list + checked correspondence",
+        "design": "DESIGN.md section 8 / C10",
+    },
     "C11": {
         "text": "Machine-checked proof (Coq 8.16.1): for every well-formed transaction, input index, amount < 2^64, scriptCode, version, "
                 "locktime and each of the six standard sighash types, the model of bip143.witness_message (slicing the serialised inputs "
